@@ -51,3 +51,24 @@ Lemma example_final_object :
   | None => False
   end.
 Proof. vm_compute. repeat split. Qed.
+
+(* keywords are a dictionary: re-stating a keyword (also one appended earlier in the history) or adding its
+   upper-case twin is inside the domain; the re-stated key keeps its place and takes the last value *)
+Definition ex_ops2 : list op :=
+  [ AppendPairs [(bs "k"%string, bs "new"%string); (bs "K"%string, bs "twin"%string)] (bs "t1"%string);
+    AppendPairs [(bs "K"%string, bs "again"%string)] (bs "t2"%string);
+    WriteCopy (bs "g.par"%string) [bs "c2"%string];
+    AppendPairs [(bs "k"%string, bs "last"%string)] (bs "t3"%string);
+    ReRead ].
+Definition ex_case2 : case := CHist ex_doc (bs "f.par"%string) false (map (fun x => (x, mkobs 0 [] None ONone)) ex_ops2).
+
+Lemma example_repeated_keys :
+  in_domain ex_case2 = true /\
+  d_pairs (spec_doc ex_doc ex_ops2) = [(bs "k"%string, bs "last"%string); (bs "K"%string, bs "again"%string)] /\
+  match init_state ex_doc (bs "f.par"%string) false with
+  | Some s => outcomes s ex_ops2 = [Ok; Ok; Ok; Ok; Ok] /\
+              let '(fs, o) := run s ex_ops2 in
+              pd_pairs (o_state o) = [(bs "k"%string, bs "last"%string); (bs "K"%string, bs "again"%string)]
+  | None => False
+  end.
+Proof. vm_compute. repeat split. Qed.
